@@ -19,7 +19,8 @@ from concurrent.futures import ThreadPoolExecutor
 HERE = os.path.dirname(os.path.abspath(__file__))
 VERIF = os.path.dirname(HERE)
 sys.path.insert(0, HERE)
-from mutants import CONTROLS, MUTANTS  # noqa: E402
+from mutants import CONTROLS, MUTANTS, REFACTORINGS  # noqa: E402
+import re
 
 REPO = os.environ.get("SELFTEST_REPO", "/repo")
 
@@ -36,9 +37,17 @@ def run_one(m, args):
     try:
         p = os.path.join(d, path)
         src = open(p).read()
-        if src.count(old) != 1:
-            return dict(id=mid, prop=prop, status="PATCH-DOES-NOT-APPLY", count=src.count(old))
-        open(p, "w").write(src.replace(old, new))
+        if old == "*":
+            out = src
+            for pat, rep in new:
+                out, n = re.subn(pat, rep, out)
+                if n == 0:
+                    return dict(id=mid, prop=prop, status="PATCH-DOES-NOT-APPLY", count=0)
+            open(p, "w").write(out)
+        else:
+            if src.count(old) != 1:
+                return dict(id=mid, prop=prop, status="PATCH-DOES-NOT-APPLY", count=src.count(old))
+            open(p, "w").write(src.replace(old, new))
         rc = subprocess.run([sys.executable, "-c", "import bibtexparser"], env=dict(os.environ, PYTHONPATH=d), capture_output=True)
         if rc.returncode != 0:
             return dict(id=mid, prop=prop, status="DOES-NOT-IMPORT", err=rc.stderr.decode()[-300:])
@@ -49,9 +58,18 @@ def run_one(m, args):
             tests = "green" if t.returncode == 0 else "RED: " + t.stdout.strip().splitlines()[-1][:80]
         t0 = time.time()
         env = dict(os.environ, VERIF_REPO=d, VERIF_WORKERS=str(args.workers))
-        r = subprocess.run([os.path.join(VERIF, "check"), prop, "--tier", args.tier, "--no-shrink"], env=env, capture_output=True, text=True, cwd=VERIF)
-        fired = r.returncode == 1 and "VIOLATION property=" in r.stdout
-        sigs = [l.split("sig=")[1].split(" detail=")[0] for l in r.stdout.splitlines() if "sig=" in l][:3]
+        props = ["C%02d" % i for i in range(1, 21)] if prop == "ALL" else [prop]
+        fired, sigs, rcs, stdout = False, [], [], ""
+        for pr in props:
+            r = subprocess.run([os.path.join(VERIF, "check"), pr, "--tier", args.tier, "--no-shrink"], env=env, capture_output=True, text=True, cwd=VERIF)
+            rcs.append(r.returncode)
+            if r.returncode != 0:
+                stdout += r.stdout[-300:]
+            # for a refactoring every non-zero exit (violation OR inconclusive) is unwanted
+            fired = fired or (r.returncode == 1 and "VIOLATION property=" in r.stdout) or (prop == "ALL" and r.returncode != 0)
+            sigs += [pr + " " + l.split("sig=")[1].split(" detail=")[0] for l in r.stdout.splitlines() if "sig=" in l][:3]
+            sigs += [pr + " " + l[:80] for l in r.stdout.splitlines() if l.startswith("INCONCLUSIVE")][:2]
+        r = type("R", (), dict(returncode=max(rcs), stdout=stdout))
         expect = mid not in CONTROLS
         ok = fired == expect
         return dict(id=mid, prop=prop, status="ok" if ok else ("MISSED" if expect else "FALSE-ALARM-ON-CONTROL"), fired=fired, rc=r.returncode,
@@ -70,7 +88,7 @@ def main():
     ap.add_argument("--out", default=os.path.join(HERE, "last_run.json"))
     ap.add_argument("ids", nargs="*")
     args = ap.parse_args()
-    sel = [m for m in MUTANTS if not args.ids or any(s in m[0] or s == m[1] for s in args.ids)]
+    sel = [m for m in MUTANTS + REFACTORINGS if not args.ids or any(s in m[0] or s == m[1] for s in args.ids)]
     res = []
     with ThreadPoolExecutor(args.jobs) as ex:
         for r in ex.map(lambda m: run_one(m, args), sel):
